@@ -366,6 +366,17 @@ pub fn run(args: &Args) {
         roundtrips(&mut rep, &mut rng, i);
         several_tokens(&mut rep, &mut rng);
         token_under_null(&mut rep, &mut rng);
+        if i % 5 == 0 {
+            // keywords, numbers and strings padded with characters Unicode calls white space but JSON does not
+            let blank = ["\u{A0}", "\u{B}", "\u{C}", "\u{85}", "\u{2003}", "\u{2028}", "\u{3000}", "\u{FEFF}", " ", "\n"][rng.below(10)];
+            let core = ["true", "false", "null", "1", "\"s\"", "[1]", "{}", "-0.5"][rng.below(8)];
+            let body = match rng.below(3) {
+                0 => format!("{}{}", blank, core),
+                1 => format!("{}{}", core, blank),
+                _ => format!(" {}{} ", blank, core),
+            };
+            decoder_agreement(&mut rep, &body, 1);
+        }
         if i % 6 == 0 {
             // long bodies, well-formed or not, with multi-byte characters where text gets cut
             let around = [16usize, 32, 64, 100, 128, 160, 200, 256, 512, 1024, 4096][rng.below(11)];
